@@ -380,6 +380,14 @@ class C05(Prop):
                 j += 1
         return inners, timelines
 
+    # translator tie: InnerObserver / OutsideObserver of merge_all (compiler-expanded, translated) in closed form: the
+    # bookkeeping skeleton of the model (limit test, FIFO queue, hand-over of the slot, completion condition), both
+    # flavours; MultiSubscription.append from src/subscription.rs
+    tie_modules = {
+        "RxModel.GenTie.MergeAll": [],
+        "RxModel.GenTie.MergeAllThreads": [],
+    }
+
     def cases(self, tier, seed):
         rng = random.Random(seed)
         quick = tier == "quick"
